@@ -618,14 +618,29 @@ class HList:
         return self.sym.length()
 
 
-class HDict:
-    """dict with concrete python keys -> V (e.g. small literal dicts, environ with literal keys)"""
+class SMaybe(V):
+    """value slot of a dict key that may be absent (only inside HDict.items; produced by loop havoc)"""
 
-    def __init__(self, items=None):
+    def __init__(self, present, inner):
+        self.present = present
+        self.inner = inner
+
+    def __repr__(self):
+        return "SMaybe(%s,%r)" % (self.present, self.inner)
+
+
+class HDict:
+    """dict with concrete python keys -> V (e.g. small literal dicts, environ with literal keys).
+    `dyn`: an abstract region of keys that are symbolic strings with a literal prefix no concrete key shares
+    ({'prefix': bytes, 'count': z3 Int number of stores, 'last': (key, has-bool)}): membership there is unknown, loads give
+    an arbitrary string, stores are counted. A value may be SMaybe (key possibly absent)."""
+
+    def __init__(self, items=None, dyn=None):
         self.items = dict(items or {})
+        self.dyn = dict(dyn) if dyn else None
 
     def clone(self):
-        return HDict(self.items)
+        return HDict(self.items, self.dyn)
 
 
 
